@@ -219,7 +219,7 @@ func c18(r *vlib.Run) int {
 	}
 	results, crashes := r.RunBatches("c18api", cases, 500, 14, nil, nil)
 	for _, cr := range crashes {
-		r.Violation("worker-crash", map[string]interface{}{"case": typed[cr.Index], "stderr": vlib.Trunc(string(cr.Result.Stderr), 3000)})
+		r.Violation("worker-crash", map[string]interface{}{"case": typed[cr.Any()], "stderr": vlib.Trunc(string(cr.Result.Stderr), 3000)})
 	}
 	for i, raw := range results {
 		if raw == nil {
